@@ -1,4 +1,5 @@
 import NfpmModel.Lemmas.Closure
+import NfpmModel.Lemmas.NoClash
 /-
   C05  Content planning: selection, placement, parent closure, collision rejection.
 
@@ -145,6 +146,51 @@ theorem plan_parents_first_partial (O : Oracle) (cfg : PlanCfg) (raw l : List Co
       rw [normFile_eq]
       have := ancestor_lt _ (rcomps_proper x) [] a ha
       simpa using this
+
+/-- **C05 – collision soundness: an accepted list never has a non-directory and a directory at one path.**
+    For EVERY content list (tree entries, globs, every order): in a successful plan no path `p` occurs both
+    as `p` (file, symlink, ghost, …) and as `p/` (directory, explicit or implied). -/
+theorem plan_no_path_clash (O : Oracle) (cfg : PlanCfg) (raw l : List Content)
+    (h : plan O cfg raw = .ok l) :
+    ∀ x, ¬ (normFile x ∈ l.map (·.dst) ∧ normDir x ∈ l.map (·.dst)) := by
+  obtain ⟨m, hm, hl, hinv⟩ := plan_ok_inv O cfg raw l h
+  subst hl
+  have hnc : NoClash m := noClash_planMap O cfg _ [] m noClash_nil hm
+  have hperm : (((m.map (·.2)).mergeSort contentLe).map (·.dst)).Perm m.keys := by
+    rw [← values_dst_eq_keys cfg.packager m hinv]
+    exact (List.mergeSort_perm _ _).map _
+  intro x ⟨h1, h2⟩
+  exact hnc x ⟨hperm.subset h1, hperm.subset h2⟩
+
+/-- **C05 – nothing lies beneath a non-directory** (`_partial`: lists without `tree` entries, as for
+    parents-first): every ancestor directory of every planned entry is itself planned as a directory, and the
+    same path is not planned as a non-directory. -/
+theorem plan_ancestors_are_directories_partial (O : Oracle) (cfg : PlanCfg) (raw l : List Content)
+    (hnt : ∀ c ∈ raw, classify c.type ≠ .tree) (h : plan O cfg raw = .ok l) :
+    ∀ k ∈ l.map (·.dst), ∀ q, q ≠ [] → q <+: (comps k).dropLast → (∀ c ∈ q, Proper c) →
+      renderDir q ∈ l.map (·.dst) ∧ slash :: joinWith slash q ∉ l.map (·.dst) := by
+  obtain ⟨m, hm, hl, hinv⟩ := plan_ok_inv O cfg raw l h
+  have hclash := plan_no_path_clash O cfg raw l h
+  subst hl
+  have hclosed : Closed m := by
+    refine closed_planMap O cfg _ [] m ?_ (by intro k hk; simp [CMap.keys] at hk) hm
+    intro ic hic
+    unfold zipIdx at hic
+    exact hnt ic.2 (List.of_mem_zip hic).2
+  have hperm : (((m.map (·.2)).mergeSort contentLe).map (·.dst)).Perm m.keys := by
+    rw [← values_dst_eq_keys cfg.packager m hinv]
+    exact (List.mergeSort_perm _ _).map _
+  intro k hk q hq hpre hprop
+  have hanc : renderDir q ∈ ancestorDirs k := by
+    unfold ancestorDirs
+    exact List.mem_map.mpr ⟨q, (mem_nonEmptyPrefixes _ q).mpr ⟨hq, hpre⟩, rfl⟩
+  have hin : renderDir q ∈ ((m.map (·.2)).mergeSort contentLe).map (·.dst) :=
+    hperm.symm.subset (hclosed k (hperm.subset hk) _ hanc)
+  refine ⟨hin, ?_⟩
+  intro hfile
+  apply hclash (joinWith slash q)
+  rw [normFile_join q hq hprop, normDir_join q hq hprop]
+  exact ⟨hfile, hin⟩
 
 /-- the directories created for an entry are exactly the ancestor directories of its
     normalised destination – "nothing else" (all byte strings) -/
